@@ -8,6 +8,7 @@
 mod cf;
 mod gen;
 mod sbx;
+mod skim;
 
 use fbh::gal::*;
 use fbh::prng::Rng;
@@ -36,6 +37,15 @@ fn run_one(kind: u8, bytes: &[u8], scratch: &Path) -> (Res, Option<Res>) {
 	match kind {
 		K_CLASS => {
 			let (r, class) = res_of(guarded(|| duke::read_class(&mut Cursor::new(bytes))));
+			// the same bytes through the reader's other paths: all interests without a tree, no
+			// interests with every member declined, class declined; twice in a row on one cursor
+			let others: [(&str, Result<(), String>); 4] = [
+				("read_class_multi with the () visitor", guarded(|| { let _ = duke::read_class_multi(&mut Cursor::new(bytes), ()); })),
+				("read_class_multi with a visitor without interests", guarded(|| { let mut c = Cursor::new(bytes); if let Ok(v) = duke::read_class_multi(&mut c, skim::Skim(0)) { let _ = duke::read_class_multi(&mut c, v); } })),
+				("read_class_multi with a visitor that declines the class", guarded(|| { let mut c = Cursor::new(bytes); if let Ok(v) = duke::read_class_multi(&mut c, skim::Decline(0)) { let _ = duke::read_class_multi(&mut c, v); } })),
+				("read_class_multi into Vec<ClassFile>, twice on one cursor", guarded(|| { let mut c = Cursor::new(bytes); if let Ok(v) = duke::read_class_multi(&mut c, Vec::new()) { let _ = duke::read_class_multi(&mut c, v); } })),
+			];
+			for (what, o) in others { if let Err(p) = o { return (Res::Panic(format!("{what}: {p}")), None); } }
 			let Some(class) = class else { return (r, None); };
 			let (w, written) = res_of(guarded(AssertUnwindSafe(|| { let mut v = vec![]; duke::write_class(&mut v, &class).map(|_| v) })));
 			let w = match (w, written) {
@@ -279,7 +289,8 @@ fn known_class(inp: &Input, bytes: &[u8], failure: &str) -> Option<&'static str>
 pub fn run(ctx: &Ctx) -> anyhow::Result<Report> {
 	let mut r = Report::new("C16", "C16.Run");
 	let mut rng = Rng::new(ctx.seed);
-	let bases_named = load_bases();
+	let mut bases_named = load_bases();
+	bases_named.extend(gen::assembled_bases());
 	let bases: Vec<Vec<u8>> = bases_named.iter().map(|x| x.1.clone()).collect();
 	let mut inputs: Vec<Input> = vec![];
 
@@ -290,11 +301,13 @@ pub fn run(ctx: &Ctx) -> anyhow::Result<Report> {
 	}
 	let mut sites_total = 0usize;
 	for (i, b) in bases.iter().enumerate() {
-		let budget = if ctx.thorough { usize::MAX } else if b.len() > 4096 { 6000 } else { 4000 };
+		// work per base is bounded in bytes parsed (a 60 KB class costs ~30 ms per input)
+		let by_bytes = |mb: usize| ((mb << 20) / b.len().max(1)).max(50);
+		let budget = if ctx.thorough { by_bytes(400) } else { by_bytes(24).min(if b.len() > 4096 { 6000 } else { 4000 }) };
 		sites_total += gen::field_mutations(i as u32, b, &mut rng, budget, &mut inputs);
-		let step = if b.len() <= 4096 || ctx.thorough { 1 } else { 7 };
+		let step = if b.len() <= 4096 { 1 } else if ctx.thorough { (b.len() / 4000).max(1) } else { (b.len() / 600).max(7) };
 		gen::truncations(i as u32, b, step, &mut inputs);
-		gen::random_edits(i as u32, b, &mut rng, if ctx.thorough { 3000 } else { 400 }, &mut inputs);
+		gen::random_edits(i as u32, b, &mut rng, if ctx.thorough { by_bytes(100).min(5000) } else { by_bytes(6).min(400) }, &mut inputs);
 	}
 	r.count_n("structural_sites_times_values_available", sites_total as u64);
 	gen::targeted(ctx.thorough, &mut inputs);
@@ -307,12 +320,13 @@ pub fn run(ctx: &Ctx) -> anyhow::Result<Report> {
 	let _ = std::fs::remove_dir_all(&dir);
 	anyhow::ensure!(outs.len() == inputs.len(), "sandbox returned {} outcomes for {} inputs", outs.len(), inputs.len());
 
-	r.rule = format!("every input runs in a child process of the harness under ulimit (address space {} MiB, stack {} MiB, CPU {} s per batch, {} s wall per input) with a counting allocator; outcome ok/err is fine, panic / signal / timeout / heap above 32 MiB + 512 x input size is a violation (each re-run alone before it counts). Inputs: {} valid classes (javac 17 output for --release 8/17 incl. records, sealed, module-info, lambdas, switches, annotations, type annotations; /repo fixtures), every structural field found by an independent walker set to boundary values, truncation at every byte, random byte edits, hand-assembled hostile shapes (truncated instructions, switch ranges, stack-map offset sums, local-variable ranges, exception ranges, code_length, attribute_length up to 4 GiB, self-referential / deep / shared bootstrap arguments, self-referential pool entries, deeply nested element values, huge counts, duplicates, 65535-byte code), text inputs for tiny v2 / tiny diff / Enigma / nests (fixtures mutated, random lines, invalid UTF-8, huge indentation, very long lines, deep CLASS nesting) and descriptor strings; accepted classes go through write_class and the written bytes are read again. Non-trivial: the parser accepted the input, or the input is a structured mutation of a valid file (reaches past the header). Distinct by input bytes.", LIMITS.as_kib / 1024, LIMITS.stack_kib / 1024, LIMITS.cpu_s, INPUT_WALL_LIMIT_MS / 1000, bases.len());
+	r.rule = format!("every input runs in a child process of the harness under ulimit (address space {} MiB, stack {} MiB, CPU {} s per batch, {} s CPU per input) with a counting allocator; outcome ok/err is fine, panic / signal / timeout / heap above 32 MiB + 512 x input size is a violation (each re-run alone before it counts). Inputs: {} valid classes (javac 17 output for --release 8/17 incl. records, sealed, module-info, lambdas, switches, annotations, type annotations; /repo fixtures), every structural field found by an independent walker set to boundary values, truncation at every byte, random byte edits, hand-assembled hostile shapes (truncated instructions, switch ranges, stack-map offset sums, local-variable ranges, exception ranges, code_length, attribute_length up to 4 GiB, self-referential / deep / shared bootstrap arguments, self-referential pool entries, deeply nested element values, huge counts, duplicates, 65535-byte code), text inputs for tiny v2 / tiny diff / Enigma / nests (fixtures mutated, random lines, invalid UTF-8, huge indentation, very long lines, deep CLASS nesting) and descriptor strings; accepted classes go through write_class and the written bytes are read again. Non-trivial: the parser accepted the input, or the input is a structured mutation of a valid file (reaches past the header). Distinct by input bytes.", LIMITS.as_kib / 1024, LIMITS.stack_kib / 1024, LIMITS.cpu_s, INPUT_CPU_LIMIT_MS / 1000, bases.len());
 
 	// group failures so that the report shows each distinct failure once, smallest input first
 	struct Fail { what: String, replay: String, len: usize, count: u64, known: Option<&'static str> }
 	let mut fails: BTreeMap<String, Fail> = BTreeMap::new();
 	let mut slowest: (u64, String) = (0, String::new());
+	let mut slow_list: Vec<(u64, String)> = vec![];
 	let mut fattest: (f64, String) = (0.0, String::new());
 	for (inp, o) in inputs.iter().zip(outs.iter()) {
 		let bytes = inp.bytes(&bases);
@@ -323,9 +337,12 @@ pub fn run(ctx: &Ctx) -> anyhow::Result<Report> {
 		let canon = { use std::hash::{Hash, Hasher}; let mut h = std::collections::hash_map::DefaultHasher::new(); bytes.hash(&mut h); format!("{}:{}:{:x}", inp.kind, bytes.len(), h.finish()) };
 		r.eval(&canon, !bytes.is_empty() && (accepted || derived));
 		r.count(&format!("inputs:{}", inp.stream));
+		r.count_n(&format!("millis:{}", inp.stream), o.micros / 1000);
 		r.count(&format!("outcome:{kname}:{}", o.res.token()));
 		if let Some(w) = &o.write { r.count(&format!("outcome:class-writer:{}", w.token())); }
+		if inp.stream == "class-valid" { r.count(&format!("valid-base:{}", o.res.token())); if o.res != Res::Ok { r.notes.push(format!("base not accepted by the reader: {}", inp.label)); } }
 		if o.micros > slowest.0 { slowest = (o.micros, inp.label.clone()); }
+		if o.micros > 200_000 { slow_list.push((o.micros, inp.label.clone())); }
 		let ratio = o.peak as f64 / (bytes.len().max(1) as f64);
 		if o.peak > (1 << 20) && ratio > fattest.0 { fattest = (ratio, format!("{} (peak {} bytes for {} input bytes)", inp.label, o.peak, bytes.len())); }
 
@@ -354,6 +371,9 @@ pub fn run(ctx: &Ctx) -> anyhow::Result<Report> {
 		}
 	}
 	r.notes.push(format!("slowest input: {} us — {}", slowest.0, slowest.1));
+	slow_list.sort(); slow_list.reverse();
+	r.count_n("inputs_slower_than_200ms", slow_list.len() as u64);
+	for (us, l) in slow_list.iter().take(8) { r.notes.push(format!("slow: {us} us — {l}")); }
 	r.notes.push(format!("largest heap/input ratio above 1 MiB: {:.0} — {}", fattest.0, fattest.1));
 	for (_, f) in fails {
 		r.count_n("distinct_failures", 1);
@@ -399,5 +419,26 @@ fn main() -> anyhow::Result<()> {
 	let args: Vec<String> = std::env::args().collect();
 	if args.len() >= 3 && args[1] == "--child" { child_main(Path::new(&args[2]), run_one); }
 	if args.len() >= 3 && args[1] == "--dump-crashers" { return dump_crashers(Path::new(&args[2])); }
+	if args.len() >= 3 && args[1] == "--selftest" {
+		let n: usize = args[2].parse()?;
+		let jobs: usize = args.get(3).and_then(|x| x.parse().ok()).unwrap_or(1);
+		let inputs: Vec<Input> = (0..n).map(|i| Input::raw(K_CLASS, "selftest", format!("nops {i}"), gen::code_class(&cf::nops(65534)))).collect();
+		let t = std::time::Instant::now();
+		let outs = run_all(Path::new("/tmp/c16-selftest"), &[], &inputs, jobs);
+		let mut us: Vec<u64> = outs.iter().map(|o| o.micros).collect(); us.sort();
+		println!("{n} inputs, {jobs} jobs: wall {:?}; per input min {} median {} max {} us", t.elapsed(), us[0], us[us.len() / 2], us[us.len() - 1]);
+		return Ok(());
+	}
+	if args.len() >= 3 && args[1] == "--time" {
+		let bytes = if args[2] == "nops" { gen::code_class(&cf::nops(65534)) } else { std::fs::read(&args[2])? };
+		let t = std::time::Instant::now();
+		let c = duke::read_class(&mut Cursor::new(&bytes));
+		println!("read_class: {:?} ok={}", t.elapsed(), c.is_ok());
+		if let Ok(c) = c { let t = std::time::Instant::now(); let mut v = vec![]; let w = duke::write_class(&mut v, &c); println!("write_class: {:?} ok={}", t.elapsed(), w.is_ok());
+			let t = std::time::Instant::now(); let _ = duke::read_class(&mut Cursor::new(&v)); println!("re-read: {:?}", t.elapsed()); }
+		let t = std::time::Instant::now(); let _ = duke::read_class_multi(&mut Cursor::new(&bytes), ()); println!("unit visitor: {:?}", t.elapsed());
+		let t = std::time::Instant::now(); let _ = duke::read_class_multi(&mut Cursor::new(&bytes), skim::Skim(0)); println!("skim visitor: {:?}", t.elapsed());
+		return Ok(());
+	}
 	fbh::main_with(run)
 }
